@@ -98,6 +98,13 @@ fn emit_mv(out: &mut Out, b: &ChessBoard, m: &BoardMove, what: &str) {
         out.stats.inc(&format!("mv.{what}.{class}"));
         out.emit(&format!("mv {r} {text}"), &o);
     });
+    // C06 is about every position reachable through the library's own moves: the successor of every move the
+    // implementation accepts gets its own representation-invariant query (whatever the specification thinks of the move)
+    if what == "legal" {
+        if let Some(nb) = catch(|| b.make_move(m).ok()).flatten() {
+            with_raw(out, &nb, |out, r| out.emit(&format!("q {r}"), &obs_q(&nb)));
+        }
+    }
 }
 
 /// Transposition probe: moves a, b of the side to move (different pieces) and a reply x such
